@@ -26,31 +26,44 @@ theorem get_set_same (f : Flags) (s : Switch) (v : Bool) : (f.set s v).get s = v
 theorem get_set_other (f : Flags) (s t : Switch) (v : Bool) (h : s ≠ t) : (f.set s v).get t = f.get t := by
   cases s <;> cases t <;> first | rfl | exact absurd rfl h
 
-/-- the cw20-LP marker is never written -/
-theorem step_lpCw20 (base : Path → Res Unit) (s s' : St) (op : Op) (h : step base s op = .ok s') :
-    s'.lpCw20 = s.lpCw20 := by
+/-- an operation that succeeds changes at most the switches (the cw20-LP marker is never written and
+    the loan counter is back where it was) -/
+theorem step_frame (base : Path → Res Unit) (s s' : St) (op : Op) (h : step base s op = .ok s') :
+    s'.lpCw20 = s.lpCw20 ∧ s'.loans = s.loans := by
   cases op with
   | setFlags o f =>
     simp only [step] at h
     split at h
-    · cases h; rfl
+    · cases h; exact ⟨rfl, rfl⟩
     · cases h
   | setPartial o a b c =>
     simp only [step] at h
     split at h
-    · cases h; rfl
+    · cases h; exact ⟨rfl, rfl⟩
     · cases h
   | touch o =>
     simp only [step] at h
     split at h
-    · cases h; rfl
+    · cases h; exact ⟨rfl, rfl⟩
     · cases h
   | call p =>
     simp only [step] at h
     split at h
-    · cases h; rfl
+    · cases h; exact ⟨rfl, rfl⟩
     · cases h
     · cases h
+  | inLoan outer inner m lb =>
+    simp only [step] at h
+    split at h
+    · cases h; exact ⟨rfl, rfl⟩
+    · cases h
+    · cases h
+
+theorem step_lpCw20 (base : Path → Res Unit) (s s' : St) (op : Op) (h : step base s op = .ok s') :
+    s'.lpCw20 = s.lpCw20 := (step_frame base s s' op h).1
+
+theorem step_loans (base : Path → Res Unit) (s s' : St) (op : Op) (h : step base s op = .ok s') :
+    s'.loans = s.loans := (step_frame base s s' op h).2
 
 theorem reach_lpCw20 (base : Path → Res Unit) (ops : List Op) (s : St) :
     (reach base s ops).lpCw20 = s.lpCw20 := by
@@ -61,6 +74,91 @@ theorem reach_lpCw20 (base : Path → Res Unit) (ops : List Op) (s : St) :
     split
     · next s' h => rw [ih, step_lpCw20 base s s' op h]
     · exact ih s
+
+/-- the loan counter is transient: between transactions it is where it started (0 for a new vault) -/
+theorem reach_loans (base : Path → Res Unit) (ops : List Op) (s : St) :
+    (reach base s ops).loans = s.loans := by
+  induction ops generalizing s with
+  | nil => rfl
+  | cons op ops ih =>
+    simp only [reach]
+    split
+    · next s' h => rw [ih, step_loans base s s' op h]
+    · exact ih s
+
+/-- the guards themselves never panic: with a base that does not, a call answers `ok` or `err` -/
+theorem stepPath_ok_or_err (s : St) (p : Path) :
+    stepPath (fun _ => .ok ()) s p = .ok () ∨ stepPath (fun _ => .ok ()) s p = .err := by
+  unfold stepPath
+  split
+  · exact Or.inr rfl
+  · split
+    · exact Or.inr rfl
+    · split
+      · exact Or.inr rfl
+      · exact Or.inl rfl
+
+/-- the guards do not look at what the operation would do -/
+theorem stepPath_err_any_base (b b' : Path → Res Unit) (s : St) (p : Path)
+    (h : gate p s.flags = false ∨ entryRejects s.lpCw20 p = true ∨ loanRejects s.loans p = true) :
+    stepPath b s p = .err ∧ stepPath b' s p = .err := by
+  unfold stepPath
+  rcases h with h | h | h
+  · simp [h]
+  · by_cases g : gate p s.flags = false <;> simp [g, h]
+  · by_cases g : gate p s.flags = false <;> by_cases e : entryRejects s.lpCw20 p = true <;> simp [g, e, h]
+
+theorem finishLoan_false_inner (r : Res Unit) (m : Mode) : (finishLoan r m false).inner ≠ some true := by
+  unfold finishLoan
+  cases r <;> cases m <;> simp
+
+/-- the loan's own guards reject ⇒ the transaction is rejected, no inner message is sent -/
+theorem stepInLoan_outer_err (s : St) (outer inner : Path) (m : Mode) (lb : LoanBase)
+    (h : outer.isLoan = false ∨ stepPath (fun _ => .ok ()) s outer = .err) :
+    stepInLoan s outer inner m lb = ⟨.err, none⟩ := by
+  unfold stepInLoan
+  rcases h with h | h
+  · simp [h]
+  · by_cases hl : outer.isLoan = false
+    · simp [hl]
+    · simp [hl, h]
+
+/-- the inner message is rejected, plain message ⇒ the transaction is rejected -/
+theorem stepInLoan_inner_err_propagate (s : St) (outer inner : Path) (lb : LoanBase)
+    (h : stepPath (fun _ => lb.inner) { s with loans := s.loans + 1 } inner = .err) :
+    stepInLoan s outer inner .propagate lb = ⟨.err, none⟩ := by
+  by_cases hl : outer.isLoan = false
+  · exact stepInLoan_outer_err s outer inner _ lb (Or.inl hl)
+  · rcases stepPath_ok_or_err s outer with ho | ho
+    · unfold stepInLoan
+      simp [hl, ho, h]
+    · exact stepInLoan_outer_err s outer inner _ lb (Or.inr ho)
+
+/-- the inner message is rejected, caught ⇒ the loan goes on around a failed message -/
+theorem stepInLoan_inner_err_catch (s : St) (outer inner : Path) (lb : LoanBase)
+    (h : stepPath (fun _ => lb.inner) { s with loans := s.loans + 1 } inner = .err) :
+    stepInLoan s outer inner .catch lb = ⟨.err, none⟩ ∨
+    stepInLoan s outer inner .catch lb = finishLoan lb.caught .catch false := by
+  by_cases hl : outer.isLoan = false
+  · exact Or.inl (stepInLoan_outer_err s outer inner _ lb (Or.inl hl))
+  · rcases stepPath_ok_or_err s outer with ho | ho
+    · right
+      unfold stepInLoan
+      simp [hl, ho, h]
+    · exact Or.inl (stepInLoan_outer_err s outer inner _ lb (Or.inr ho))
+
+/-- … and which of the two it is depends on the loan's guards only -/
+theorem stepInLoan_inner_err_catch_eq (s : St) (outer inner : Path) (lb lb' : LoanBase)
+    (hc : lb'.caught = lb.caught)
+    (h : stepPath (fun _ => lb.inner) { s with loans := s.loans + 1 } inner = .err)
+    (h' : stepPath (fun _ => lb'.inner) { s with loans := s.loans + 1 } inner = .err) :
+    stepInLoan s outer inner .catch lb' = stepInLoan s outer inner .catch lb := by
+  by_cases hl : outer.isLoan = false
+  · rw [stepInLoan_outer_err s outer inner _ lb (Or.inl hl), stepInLoan_outer_err s outer inner _ lb' (Or.inl hl)]
+  · rcases stepPath_ok_or_err s outer with ho | ho
+    · unfold stepInLoan
+      simp [hl, ho, h, h', hc]
+    · rw [stepInLoan_outer_err s outer inner _ lb (Or.inr ho), stepInLoan_outer_err s outer inner _ lb' (Or.inr ho)]
 
 /-- a call never writes the switches -/
 theorem step_call_flags (base : Path → Res Unit) (s s' : St) (p : Path) (h : step base s (.call p) = .ok s') :
